@@ -93,6 +93,11 @@ CHECKS = {
    text="Sessions of generated top-level steps (grouped 1-3 per line, renamed apart), alias / destructuring / shadowing / import / closure-capture / previous-result lines and injected parse- and compile-rejected lines, on 1-3 workers under eager, uniform and lazy schedules. Oracle per line: REPL outcome == joined-program outcome; rejected line: get_variables() unchanged and the joined program rejects it too.",
    design="§3 C11",
    note="The comparison of a session ends at the first nil line (the single program would short-circuit there)."),
+ "C13": dict(
+   technique="runtime monitoring: model-based oracle — the real VM's equality verdicts (pin, pin inside a tuple, repeated binder, literal pattern, received message) on values built along two independent construction paths are compared with structural equality of the abstract values; ref uniqueness is checked over refs minted by several processes on several workers",
+   text="Abstract values (ints, binaries incl. long ones, nested named/labelled tuples, Str) and minimal perturbations of them, each built as literal / computed / spread / from union-typed variables / through a generic function / imported from a module / awaited from a process / received as a message / returned by a closure; all ordered pairs of paths, both orders of comparison. Refs: 2-5 processes mint 1-3 refs each on 1-4 workers under three schedules, the root compares pairs. Functions and processes: definition + captures, identity.",
+   design="§3 C13",
+   note="Two textually identical but separate function definitions are not compared."),
  "C16": dict(
    technique="runtime monitoring: space monitor (executor peak counters + heap slot count) over tail-recursive shape templates executed at N and 50N",
    text="Tail-recursive shapes (self ^ in body / consequence / nested blocks / after bindings / after failed matches, named ^self through a passed function, ^~, per-iteration binaries, tuples, strings, and receive loops with int and binary messages) run at N and 50N on fresh profiled workers; peak frames, locals and operand stack must be identical and heap slots must not grow.",
